@@ -54,11 +54,10 @@ func putReaderBuffer(b *bytes.Buffer) {
 	}
 }
 
+// readerBufferSlice returns the buffer the message body is read into and
+// decoded from. Decoded values (Address, Unknown, IPv4, ...) keep referring
+// to it, so it must not come from the pool, which is reused by the next read.
 func readerBufferSlice(buf *bytes.Buffer, l int) []byte {
-	b := buf.Bytes()
-	if l <= MessageBufferLength && cap(b) >= MessageBufferLength {
-		return b[:l]
-	}
 	return make([]byte, l)
 }
 
